@@ -132,7 +132,9 @@ func level1() {
 				for H := 0; H < 1<<uint(n); H++ {
 					for L := 0; L < 1<<uint(n); L++ {
 						for hist := 0; hist < 4; hist++ {
-							l1cell(kind, s, all, H, L, hist)
+							for _, native := range []string{"m1", "Mx-7B"} {
+								l1cell(kind, s, all, H, L, hist, native)
+							}
 						}
 					}
 				}
@@ -141,7 +143,7 @@ func level1() {
 	}
 }
 
-func l1cell(kind string, s strat, all []*domain.Endpoint, H, L, hist int) {
+func l1cell(kind string, s strat, all []*domain.Endpoint, H, L, hist int, M string) {
 	healthy := subset(H, all)
 	fd := &fakeDisc{healthy: healthy, fail: s.refresh == "fail"}
 	reg, err := registry.NewModelRegistry(registry.RegistryConfig{Type: "memory", EnableUnifier: kind == "unified",
@@ -150,7 +152,7 @@ func l1cell(kind string, s strat, all []*domain.Endpoint, H, L, hist int) {
 		res.Break("registry: %v", err)
 		return
 	}
-	const M = "m1"
+	// M is the native name as the endpoints list it (lower case, or mixed case as real model names are)
 	with := []*domain.ModelInfo{mi(M), mi("other")}
 	without := []*domain.ModelInfo{mi("other")}
 	var hdesc []string
@@ -197,7 +199,7 @@ func l1cell(kind string, s strat, all []*domain.Endpoint, H, L, hist int) {
 	for _, sp := range []struct {
 		name  string
 		exact bool
-	}{{M, true}, {"M1", false}, {"m1:latest", false}, {"zz-unknown", true}} {
+	}{{M, true}, {strings.ToUpper(M), false}, {strings.ToLower(M) + ":latest", false}, {"zz-unknown", true}} {
 		eps, dec, rerr := reg.GetRoutableEndpointsForModel(ctx, sp.name, healthy)
 		res.Add("evaluations", 1)
 		res.Add("transitions", 1)
